@@ -76,6 +76,8 @@ func genArgs(cmd, opt string) []string {
 		a = append(a, "--skip-support")
 	case "exclude_main":
 		a = append(a, "--exclude-main")
+	case "exclude_main_pkg":
+		a = append(a, "--exclude-main", "--main-package", "my-server")
 	case "impl_package":
 		a = append(a, "--implementation-package", "scratch/regen/impl")
 	}
@@ -211,6 +213,7 @@ var userFiles = map[string]string{
 	"u1": "NOTES.md",
 	"u2": "restapi/my_handlers.go",
 	"u3": "models/extra_model.go",
+	"u4": "cmd/my-server/main.go", // a hand-written main, where --main-package my-server would put the generated one
 }
 
 func (b *regenBehaviour) run(hist []any) {
@@ -235,7 +238,11 @@ func (b *regenBehaviour) run(hist []any) {
 			_ = os.MkdirAll(filepath.Dir(p), 0o755)
 			content := fmt.Sprintf("// user file %s added at step %d of behaviour %d\n", rel, step, b.id)
 			if strings.HasSuffix(rel, ".go") {
-				content = "package " + filepath.Base(filepath.Dir(rel)) + "\n\n" + content
+				pkg := filepath.Base(filepath.Dir(rel))
+				if strings.HasPrefix(rel, "cmd/") {
+					pkg = "main"
+				}
+				content = "package " + pkg + "\n\n" + content
 			}
 			_ = os.WriteFile(p, []byte(content), 0o644)
 			after, _ := b.snapshot(live)
